@@ -13,6 +13,7 @@ import (
 	"go/types"
 	"os"
 	"path/filepath"
+	"regexp"
 	"sort"
 	"strconv"
 	"strings"
@@ -441,7 +442,7 @@ func (r *Report) finish(verifDir string, p *Prog, configs []string, wall float64
 			matched := false
 			if o.Verdict == Violation {
 				for _, k := range kf.Findings {
-					if k.Status == "known" && k.Property == r.Property && k.Rule == o.Rule && k.Construct == o.Construct {
+					if k.Status == "known" && k.Property == r.Property && k.Rule == o.Rule && stableConstruct(k.Construct) == stableConstruct(o.Construct) {
 						matched = true
 						o.Known = true
 						if !knownPrinted[k.Rule+k.Construct] {
@@ -559,3 +560,9 @@ func (r *Report) finish(verifDir string, p *Prog, configs []string, wall float64
 	}
 	return 0
 }
+
+var closureOrdinal = regexp.MustCompile(`\$\d+`)
+
+// stableConstruct drops closure ordinals ("cloneSub$3" -> "cloneSub$"): the number only says how many function literals
+// precede this one in the enclosing function, so an unrelated edit would otherwise turn a listed finding into a "new" one.
+func stableConstruct(c string) string { return closureOrdinal.ReplaceAllString(c, "$$") }
